@@ -12,6 +12,7 @@ import (
 
 	"github.com/filecoin-project/go-f3/certs"
 	"github.com/filecoin-project/go-f3/gpbft"
+	"github.com/filecoin-project/go-f3/internal/verif/vfix"
 )
 
 // failure is one monitor verdict; prop decides which check it belongs to.
@@ -171,6 +172,9 @@ func (m *monitors) onAccepted(to int, rec *msgRec, before gpbft.InstanceProgress
 	// Messages with foreign base / supplemental data are dropped before touching state.
 	if base := m.baseOf(to, msg.Vote.Instance); base != nil && !msg.Vote.Value.IsZero() && !msg.Vote.Value.HasBase(base) {
 		return
+	}
+	if mine := m.s.suppOf(to); !msg.Vote.SupplementalData.Eq(&mine) {
+		return // foreign supplemental data: dropped before touching state
 	}
 	t := pm.tallyFor(msg.Vote.Instance)
 	if j := msg.Justification; j != nil && !j.Vote.Value.IsZero() {
@@ -406,7 +410,8 @@ func (m *monitors) checkProof(p int, d *gpbft.Justification) {
 	if d.Vote.Round != 0 {
 		bad("proof-wrong-round", fmt.Sprintf("round %d", d.Vote.Round))
 	}
-	if !d.Vote.SupplementalData.Eq(&s.w.supp) {
+	mySupp := s.suppOf(p)
+	if !d.Vote.SupplementalData.Eq(&mySupp) {
 		bad("proof-wrong-supplemental", "supplemental data differs from the instance's")
 	}
 	// instance: the participant was in inst when deciding
@@ -440,8 +445,8 @@ func (m *monitors) checkProof(p int, d *gpbft.Justification) {
 		bad("proof-not-strong-quorum", fmt.Sprintf("signer power %d of %d", power, m.pt.ScaledTotal))
 	}
 	sort.Ints(idx)
-	agg, _ := s.backend.Aggregate(m.pt.Entries.PublicKeys())
-	payload := gpbft.Payload{Instance: inst, Round: 0, Phase: gpbft.DECIDE_PHASE, SupplementalData: s.w.supp, Value: d.Vote.Value}
+	agg, _ := s.aggregate(m.pt.Entries.PublicKeys())
+	payload := gpbft.Payload{Instance: inst, Round: 0, Phase: gpbft.DECIDE_PHASE, SupplementalData: mySupp, Value: d.Vote.Value}
 	if err := agg.VerifyAggregate(idx, payload.MarshalForSigning(networkName), d.Signature); err != nil {
 		bad("proof-aggregate-invalid", err.Error())
 	}
@@ -453,7 +458,7 @@ func (m *monitors) checkProof(p int, d *gpbft.Justification) {
 		return
 	}
 	base := s.hosts[p].bases[inst]
-	next, _, _, err := certs.ValidateFinalityCertificates(s.backend, networkName, entries, inst, base, cert)
+	next, _, _, err := certs.ValidateFinalityCertificates(vfix.KeySetBound{Inner: s.backend}, networkName, entries, inst, base, cert)
 	if err != nil || next != inst+1 {
 		bad("proof-cert-rejected", fmt.Sprintf("certificate validation: next=%d err=%v", next, err))
 	}
